@@ -10,7 +10,8 @@ import (
 )
 
 func c14isWaitGroupPtr(v ssa.Value) bool {
-	return strings.HasSuffix(typeStr(v.Type()), "*sync.WaitGroup")
+	t := typeStr(v.Type())
+	return strings.HasSuffix(t, "*sync.WaitGroup") || strings.HasSuffix(t, "errgroup.Group")
 }
 
 // c14wgOrigins: the WaitGroup variables (local cells, fields, globals) a *sync.WaitGroup value can denote.
@@ -23,6 +24,8 @@ func c14wgOrigins(v ssa.Value) map[ssa.Value]bool {
 		switch x.(type) {
 		case *ssa.Alloc, *ssa.FieldAddr, *ssa.Global:
 			out[x] = true
+		case *ssa.Extract, *ssa.Call:
+			out[x] = true // errgroup.WithContext hands the group out
 		}
 		return false
 	})
@@ -31,7 +34,10 @@ func c14wgOrigins(v ssa.Value) map[ssa.Value]bool {
 
 func c14wgCall(i ssa.Instruction, method string) (ssa.Value, bool) {
 	cc := callCommon(i)
-	if cc == nil || cc.IsInvoke() || calleeName(cc) != "(*sync.WaitGroup)."+method || len(cc.Args) == 0 {
+	if cc == nil || cc.IsInvoke() || len(cc.Args) == 0 {
+		return nil, false
+	}
+	if n := calleeName(cc); n != "(*sync.WaitGroup)."+method && !(method == "Wait" && n == "(*golang.org/x/sync/errgroup.Group).Wait") {
 		return nil, false
 	}
 	return cc.Args[0], true
@@ -57,9 +63,17 @@ func c14isLock(i ssa.Instruction, names ...string) bool {
 //     shared variable while a mutex is held;
 //   - the spawner adds to the same group before the go statement (Add(1) per goroutine, or Add(len(X)) for the
 //     collection X the spawning loop ranges over) and waits for the group after the loop.
-func c14wgJoin(gi *ssa.Go, g *ssa.Function, isQueryCall func(ssa.Value) bool) (bool, string) {
+func c14wgJoin(gi ssa.CallInstruction, g *ssa.Function, isQueryCall func(ssa.Value) bool) (bool, string) {
 	region := c14regionNoGo(g, 3)
 	groups := map[ssa.Value]bool{}
+	// (*errgroup.Group).Go adds before it starts the function and signals when the function returns
+	_, isGoStmt := gi.(*ssa.Go)
+	viaErrgroup := !isGoStmt
+	if viaErrgroup {
+		for o := range c14wgOrigins(gi.Common().Args[0]) {
+			groups[o] = true
+		}
+	}
 	isDone := func(i ssa.Instruction) bool {
 		if _, isGo := i.(*ssa.Go); isGo {
 			return false
@@ -85,7 +99,7 @@ func c14wgJoin(gi *ssa.Go, g *ssa.Function, isQueryCall func(ssa.Value) bool) (b
 		}
 		return false
 	}
-	if !mustExec(g, signals, 0) {
+	if !viaErrgroup && !mustExec(g, signals, 0) {
 		return false, "the goroutine neither sends its result nor signals a sync.WaitGroup on every path"
 	}
 	if len(groups) == 0 {
@@ -159,7 +173,7 @@ func c14wgJoin(gi *ssa.Go, g *ssa.Function, isQueryCall func(ssa.Value) bool) (b
 		}
 		return false
 	}
-	added, waited := false, false
+	added, waited := viaErrgroup, false
 	coll, _ := c14loopCount(sl)
 	for _, f := range []*ssa.Function{gi.Parent(), at.Parent()} {
 		if f == nil {
@@ -176,7 +190,7 @@ func c14wgJoin(gi *ssa.Go, g *ssa.Function, isQueryCall func(ssa.Value) bool) (b
 				}
 			}
 			if recv, ok := c14wgCall(i, "Wait"); ok && same(recv) && f == at.Parent() {
-				if _, isGo := i.(*ssa.Go); !isGo && !sl.Body[i.Block()] && sl.Head.Dominates(i.Block()) {
+				if !c14isSpawn(i) && !sl.Body[i.Block()] && sl.Head.Dominates(i.Block()) {
 					waited = true
 				}
 			}
